@@ -293,7 +293,7 @@ def mutated(ver, max_edits=3):
     return s()
 
 
-OPS = ("ins", "del", "rep", "confusable", "encoded", "drop_field", "drop_mandatory", "dup_field", "dup_field_other_value", "swap_fields",
+OPS = ("ins", "del", "rep", "confusable", "encoded", "lengthen", "drop_field", "drop_mandatory", "dup_field", "dup_field_other_value", "swap_fields",
        "transplant", "empty_field", "surgery", "case", "value_of_other_metric", "strip_value", "extra_colon")
 
 
@@ -324,6 +324,8 @@ def apply_op(draw, ver, s, op):
         if draw(st.integers(0, 3)) == 0:
             return s.replace(c, enc)
         return s[:i] + enc + s[i + 1:]
+    if op == "lengthen":
+        return lengthen(draw, ver, s)
     if op == "confusable":
         conf = confusables()
         idx = [i for i, ch in enumerate(s) if ch in conf]
@@ -385,6 +387,56 @@ def apply_op(draw, ver, s, op):
         j = draw(st.integers(0, len(fs) - 1))
         fs[j] = fs[j] + ":" + draw(st.sampled_from(["", "X", "N", "H"]))
     return "/".join(fs)
+
+
+LENGTHS = (12, 40, 80, 161, 300, 1000, 5000)
+
+
+def lengthen(draw, ver, s):
+    """
+    the same kind of string, but LONG (beyond any well-formed vector: the longest has 117 / 198 characters): code that
+    abbreviates, wraps, buffers or indexes by length only shows on such inputs.  Built from a handful of draws.
+    """
+    st = _st()
+    V = spec.VERS[ver]
+    k = draw(st.sampled_from(LENGTHS))
+    fs = s.split("/")
+    at = draw(st.integers(0, len(fs)))
+    how = draw(st.sampled_from(("empty-fields", "repeat-field", "repeat-all", "unknown-fields", "long-value", "long-key", "blanks", "junk")))
+    if how == "empty-fields":
+        fs[at:at] = [""] * k
+    elif how == "repeat-field":
+        f = fs[draw(st.integers(0, len(fs) - 1))]
+        fs[at:at] = [f] * (k // max(1, len(f)) + 1)
+    elif how == "repeat-all":
+        body = [f for f in fs if not f.startswith("CVSS:")]
+        fs = fs + body * (k // max(1, len("/".join(body))) + 1)
+    elif how == "unknown-fields":
+        m = draw(st.sampled_from(("ZZ", "XX", "E2", V.order[0].lower())))
+        fs[at:at] = [m + ":" + draw(st.sampled_from(("N", "X", "Q")))] * (k // 5 + 1)
+    elif how == "long-value":
+        j = draw(st.integers(0, len(fs) - 1))
+        fs[j] = fs[j] + fs[j][-1:] * k
+    elif how == "long-key":
+        j = draw(st.integers(0, len(fs) - 1))
+        fs[j] = fs[j][:1] * k + fs[j]
+    elif how == "blanks":
+        pad = draw(st.sampled_from((" ", "\t", "\n", "\u00a0"))) * k
+        return draw(st.sampled_from((pad + s, s + pad, s.replace("/", "/" + pad, 1))))
+    else:
+        return s + draw(st.sampled_from(("/", " ", ""))) + draw(st.sampled_from(("A", "x:", "/:", "\u2026", "9"))) * k
+    return "/".join(fs)
+
+
+def lengthened(ver):
+    """strategy: a valid vector or a near-miss, made long"""
+    st = _st()
+
+    @st.composite
+    def s(draw):
+        base = draw(valid(ver)) if draw(st.booleans()) else draw(mutated(ver, max_edits=2))[0]
+        return lengthen(draw, ver, base)
+    return s()
 
 
 NAMED_ENTITIES = {":": ("&colon;",), "/": ("&sol;", "&#x2F;"), ".": ("&period;",), "&": ("&amp;",), "<": ("&lt;",), " ": ("&nbsp;", "+", "%20")}
